@@ -18,6 +18,7 @@ MAP = {
     "k8s": "pkg/third_party/kubernetes",
     "object": "pkg/dynamic/object",
     "apiv2": "pkg/controller/common/api/v2",
+    "discovery": "pkg/dynamic/discovery",
 }
 rep = {}
 for d, pkg in MAP.items():
